@@ -2,6 +2,7 @@ import Restful.Lemmas.TieImp
 namespace Restful
 namespace TieImp
 open Imp
+set_option linter.unusedSimpArgs false
 
 namespace T6
 
@@ -150,7 +151,10 @@ theorem template_to_regex (rx : Str → Str → Bool × GoErr) (join : Str → S
       · simp only [hp, if_true]
         rcases Option.eq_none_or_eq_some (Str.index ':' each) with hi | ⟨colon, hi⟩
         · simp only [hi]
-          rw [if_neg (by decide)]
+          -- "there is no colon" in whichever polarity the code tests it (`colon != -1` / `colon == -1`)
+          have hb : ((-1 : Int) != -1) = false := by decide
+          have hb' : ((-1 : Int) == -1) = true := by decide
+          simp only [hb, hb', Bool.false_eq_true, if_false, if_true]
           have hl : len each = ((each.length : Nat) : Int) := rfl
           rw [hl]
           rcases Option.eq_none_or_eq_some (each.slice? 1 (↑(List.length each) - 1)) with h | ⟨n, h⟩
@@ -158,7 +162,8 @@ theorem template_to_regex (rx : Str → Str → Bool × GoErr) (join : Str → S
           · simp only [h, Option.bind_some, T6.stepTok_var]
         · simp only [hi]
           have hb : ((colon : Int) != -1) = true := by rw [bne_iff_ne]; omega
-          rw [if_pos hb]
+          have hb' : ((colon : Int) == -1) = false := by rw [beq_eq_false_iff_ne]; omega
+          simp only [hb, hb', Bool.false_eq_true, if_false, if_true]
           have hl : len each = ((each.length : Nat) : Int) := rfl
           have hc : ((colon : Int) + 1) = ((colon + 1 : Nat) : Int) := by omega
           rw [hl, hc]
